@@ -54,6 +54,8 @@ def pOp : P Op := do
   | "tsci" => pure .tscInval
   | "pr" => do let a ← nat; pure (.probe a)
   | "pri" => pure .probeInval
+  | "tscr" => pure .tscRaise
+  | "sp" => pure .startProc
   | _ => failure
 
 def hex16 (n : Nat) : String :=
@@ -72,6 +74,7 @@ def fmtOStr : Option Str → String
 
 def fmtErr : Err → String
   | .valueError => "ValueError" | .termImageError => "TermImageError" | .attributeError => "AttributeError"
+  | .runtimeError => "RuntimeError"
 
 def fmtEv : Ev → String
   | .cellRead => "cr" | .qCell => "qc" | .qColors => "qo" | .qName => "qn" | .qKitty => "qk"
@@ -110,6 +113,19 @@ def handler : Handler := fun op args =>
         fmtPC (s.pc t) ++ "/" ++ toString (s.runs (arg t)) ++ "/" ++
           (match s.cache (arg t) with | some v => toString v | none => "none"))
       pure ("ok " ++ String.intercalate " " per)) args
+  | "race" => Wire.run (do
+      -- race <n> <c0: none|some b> <steps…> <k>: the toggle does k steps, the reader runs as far as it
+      -- can, the toggle finishes, the reader finishes
+      let n ← bool; let c0 ← optOf bool; let steps ← listOf nat; let k ← nat
+      let prog := Race.decode steps
+      let sched := List.replicate k Race.Who.T ++ List.replicate 5 Race.Who.R ++
+        List.replicate 4 Race.Who.T ++ List.replicate 5 Race.Who.R
+      let s := Race.rrun prog n (Race.RSt.init n c0) sched
+      let cache := match s.cache with
+        | none => "empty" | some c => if c == s.flag then "fresh" else "stale"
+      let rv := match s.rval with
+        | none => "none" | some f => if f == n then "new" else "old"
+      pure ("ok " ++ fmtBool s.flag ++ " " ++ cache ++ " " ++ rv ++ " " ++ toString s.pc)) args
   | "divbits" => Wire.run (do let a ← nat; let b ← nat; pure ("ok " ++ hex16 (divBits a b))) args
   | _ => none
 
